@@ -163,17 +163,18 @@ Definition w_tmpname (v : val) : val :=
   | _ => bad
   end.
 
-(* [[prefix; suffix; limit]; fixed; files; idle; frags; order; dry; faults; observe] ->
-   [content-or-None of every name in observe; idle afterwards; error-or-None] *)
+(* [[prefix; suffix; limit]; fixed; files; idle; frags; order; dry; faults; observe; observe-presence] ->
+   [content-or-None of every name in observe; presence of every name in observe-presence;
+    idle afterwards; error-or-None] *)
 Definition w_save (v : val) : val :=
   match v with
-  | VL [VL [VS p; VS s; VZ lim]; VB fixed; files; VB idle; frags; order; VB dry; fl; obs] =>
-      match dec_all dec_frag files, dec_all dec_frag frags, as_strs order, dec_all dec_fault fl, as_strs obs with
-      | Some files, Some frags, Some order, Some fl, Some obs =>
+  | VL [VL [VS p; VS s; VZ lim]; VB fixed; files; VB idle; frags; order; VB dry; fl; obs; obsp] =>
+      match dec_all dec_frag files, dec_all dec_frag frags, as_strs order, dec_all dec_fault fl, as_strs obs, as_strs obsp with
+      | Some files, Some frags, Some order, Some fl, Some obs, Some obsp =>
           let '(f2, idle', err) := save (tmpname p s (Z.to_nat lim)) [] fixed (faults fl) files idle frags order dry in
-          VL [VL (map (fun n => enc_opt (fs_get f2 n)) obs); VB idle';
+          VL [VL (map (fun n => enc_opt (fs_get f2 n)) obs); VL (map (fun n => VB (is_some (fs_get f2 n))) obsp); VB idle';
               match err with Some e => VE e | None => VNone end]
-      | _, _, _, _, _ => bad
+      | _, _, _, _, _, _ => bad
       end
   | _ => bad
   end.
